@@ -21,6 +21,7 @@ VERIF = os.path.dirname(os.path.dirname(os.path.abspath(__file__)))
 REAL_TIME = time.time
 
 OUT_DIR = "/dev/shm"
+OUT_ROOT = os.environ.get("VERIF_OUT", VERIF)   # where evidence/ and replays/ are written
 
 
 def load_prop(pid):
@@ -309,6 +310,7 @@ def shrink(pid, prop, knobs, case, choices, target, nproc, budget_s=90):
     """ddmin over the case's lists, then over the choice sequence"""
     t_end = REAL_TIME() + budget_s
     best_case, best_choices = case, choices
+    best_v = target
     specs = getattr(prop, "SHRINK", [["ops"]])
     improved = True
     rounds = 0
@@ -340,6 +342,7 @@ def shrink(pid, prop, knobs, case, choices, target, nproc, budget_s=90):
                     for (c, _), r in zip(cands, recs):
                         if r and "harness_error" not in r and same_violation(r, target):
                             hit = (c, r["choices"])
+                            best_v = same_violation(r, target)
                             break
                     if hit:
                         best_case, best_choices = hit
@@ -351,12 +354,13 @@ def shrink(pid, prop, knobs, case, choices, target, nproc, budget_s=90):
                             break
                         gran = max(1, gran // 2)
         if hasattr(prop, "simplify"):
-            for c in prop.simplify(best_case):
+            for c in prop.simplify(best_case, best_v):
                 if REAL_TIME() > t_end:
                     break
                 r = evaluate_many(pid, knobs, [(c, best_choices)], 1)[0]
                 if r and "harness_error" not in r and same_violation(r, target):
                     best_case, best_choices = c, r["choices"]
+                    best_v = same_violation(r, target)
                     improved = True
     # schedule: zero blocks, then truncate
     ch = list(best_choices)
@@ -405,7 +409,7 @@ def replay_file(path, nproc=1, verbose=False, times=1):
 
 
 def write_replay(pid, knobs, case, choices, v, digest, subdir="replays"):
-    d = os.path.join(VERIF, subdir, pid)
+    d = os.path.join(OUT_ROOT, subdir, pid)
     os.makedirs(d, exist_ok=True)
     body = {
         "property": pid,
@@ -580,8 +584,8 @@ def run_check(pid, tier="quick", seed=0, nproc=16, runs=None, wall_cap=None, qui
         ev["coverage"].update(prop.evidence_extra(agg))
     if harness_errors:
         ev["coverage"]["harness_errors"] = harness_errors[:5]
-    os.makedirs(os.path.join(VERIF, "evidence"), exist_ok=True)
-    with open(os.path.join(VERIF, "evidence", "%s.json" % pid), "w") as f:
+    os.makedirs(os.path.join(OUT_ROOT, "evidence"), exist_ok=True)
+    with open(os.path.join(OUT_ROOT, "evidence", "%s.json" % pid), "w") as f:
         json.dump(ev, f, indent=1, sort_keys=True, default=str)
 
     if not quiet:
